@@ -222,7 +222,7 @@ def run(ctx):
     ctx.log(f"recorded {len(traces)} traces / {n_events} events / {stats['blocks']} cipher blocks "
             f"in {stats['wall_s']:.1f}s (spec theorems + recording {time.time() - t0:.0f}s)")
 
-    accepted, distinct, generated, wall = _bulk_validate(ctx, traces, parallel=12 if ctx.thorough else 10)
+    accepted, distinct, generated, wall = _bulk_validate(ctx, traces, parallel=12 if ctx.thorough else 6)
     ev.tlc_counts("AESTrace: recorded tables, unit calls and round-level call traces validated", distinct, generated, wall)
     rejected = [i for i, ok in enumerate(accepted) if not ok]
     for i, ok in enumerate(accepted):
